@@ -330,7 +330,8 @@ class ParserEngine(ParserCore, CanParse):
             if not isinstance(expression, str):
                 break
 
-            expression = trim(expression)
+            # NOTE: if nothing below evaluates, the trimmed text is the result
+            result = expression = trim(expression)
             # NOTE literal_eval() raises TypeError for `{{1}}` (a set in a set)
             with suppress(ValueError, SyntaxError, TypeError):
                 result = stdlib_ast.literal_eval(expression.strip())
